@@ -4,6 +4,9 @@ import json, os, subprocess, sys
 ROOT = os.path.dirname(os.path.dirname(os.path.abspath(__file__)))
 
 CLAIMED = {
+ "C02": ("exploration", "model-based property testing (proptest): generated operation programs executed next to a shadow plaintext-ring model, gated by a worst-case noise bound",
+         "Generated-history search: programs of up to 12 (thorough 30) evaluator operations over a pool of fresh BFV/BGV ciphertexts; operands are chosen among those the shadow state says are well-typed, so unequal sizes (2..16), both representations, lower levels and unequal BGV correction factors arise by construction. After every step the result's metadata must match the shadow and, when the deterministic noise bound allows, its decryption must equal the program evaluated in Z_t[X]/(X^N+1) by a naive reference. A measured-noise channel reports (never as a violation) if the bound model is ever too tight.",
+         "Trusted: shadow ring arithmetic (naive convolution), noise model DESIGN.md §4 with 2^6 margin; multiply_many is outside the statement's operation list and excluded.", "DESIGN.md §6 C02"),
  "C01": ("exploration", "property-based testing (proptest): decrypt(encrypt(m)) round trip over generated parameter sets, entry points, levels and plaintexts, gated by a deterministic worst-case noise bound",
          "Generated-input search over parameter sets (3 schemes, N=2..64 and a N=1024..8192 sub-check, 1..6 primes of 2..60 bits in any order, six plain-modulus kinds, special-prime flag), 13 encryption entry points (pk, sk, seed-compressed + expanded, explicit generators, zero encryptions at every level) and boundary-biased plaintexts. BFV/BGV: exact equality with the input polynomial; CKKS: within an analysed worst-case tolerance. Equality is asserted only when the deterministic fresh-noise bound (2^6 margin) is below Q/2, so no alarm can come from unlucky noise; metadata and validity of every ciphertext are checked unconditionally.",
          "Trusted: noise model of DESIGN.md §4 (ternary secret/mask, |e|<=21), CKKS tolerance incl. the decoder's word-wise negative-coefficient conversion; hook H2 only makes library randomness replayable.", "DESIGN.md §6 C01"),
